@@ -1,5 +1,6 @@
 import LachesisVerif.Props.C10
 import LachesisVerif.Proofs.OrdererFinal
+import LachesisVerif.Proofs.OrdererEpochs4
 /-!
 # C01 — Order independence
 
@@ -8,7 +9,9 @@ each epoch, each in any parents-first order, accept every event and emit identic
 (same Atropos and same cheater list for every frame) and the same epoch transitions. This holds when
 validators that create forks hold strictly less than one third of the total weight."
 
-Status: PARTIAL proof (one epoch, `(frame, Atropos)` sequences).
+Status: PARTIAL proof: `(frame, Atropos)` sequences of one epoch (`C01_order_independent_partial`), and
+decided-frame sequences `(epoch, frame, Atropos, sealed)` with epoch transitions over several epochs
+(`C01_epoch_partial`, `C01_multi_epoch_partial`, last section of this file).
 
 Proved (`C01_order_independent_partial`): let `N` be a valid history (`Valid`: what the event checkers
 guarantee; `FramesAccepted`: every claimed frame obeys the frame rule) whose forking validators hold
@@ -40,9 +43,17 @@ No longer assumed (derived from L5/L6 since the previous version): `BlocksFromEl
 Also proved: `C01_election_order_independent`, `C01_election_same_result` (one election, any two
 closed feeds: same Atropos).
 
+Several epochs (`C01_epoch_partial`, `C01_multi_epoch_partial`): the application's seal decision is the
+oracle `sealAt (epoch, frame)`; both instances receive, per epoch, all events of that epoch's history
+in their own parents-first orders, the applications are the same function; events of an old epoch
+that would arrive after the seal are not submitted (`runEpoch` skips the rest of the epoch's list;
+`C01_late_events_partial`). Both emit the same `(epoch, frame, Atropos, sealed)` sequence and make the
+same epoch transitions (after a seal both are exactly `initial (epoch+1) nv`, C09). Remaining
+hypotheses: per epoch those of `C01_order_independent_partial` except `hseal` (packed in
+`OrdererEpochs.EpochsOK`); the forkless-cause oracle is per epoch (the index is reset by a seal).
+
 Not proved: equality of the cheater lists (C03/C06: cheaters are a function of the Atropos'
-ancestry, so they follow from equal Atropoi), epoch transitions / several epochs (sealing is a
-function of the decided block, C09), restarts (C08). The `cons` correspondence stream checks all of
+ancestry, so they follow from equal Atropoi), restarts combined with seals (C08 is one epoch). The `cons` correspondence stream checks all of
 it on the real code: 2–3 instances, each with its own random parents-first order, must emit identical
 blocks, cheaters and epoch switches, equal to the order-free reference.
 -/
@@ -107,5 +118,102 @@ example : Ctx ElectionExample.net ElectionExample.vals Example.env ∧ PFFrom El
   have : e < 3 := he
   have : e = 0 ∨ e = 1 ∨ e = 2 := by omega
   rcases this with rfl | rfl | rfl <;> simp
+
+/-! ## Several epochs (`Proofs/OrdererEpochs*.lean`)
+
+The application's seal decision is the oracle `Env.sealAt : epoch → frame → Option Vals`. An instance
+whose application seals is computed from the instance whose application never seals (`noSeal`, the
+setting of L5): of the decided frames `ds` of the latter it emits `cut sealAt ep ds` — the prefix up to
+and including the first frame at which the application seals, that entry marked `sealed` — and is
+then *exactly* in `initial (epoch+1) nv` (`C09_seal_state`); `boot_sim`, `handle_sim`, `process_sim`,
+`runEpoch_sim`. Hence a run over several epochs decomposes into per-epoch runs each starting from
+`initial`, and `C01_order_independent_partial` applies to each of them.
+
+Treatment of events of an old epoch that arrive after the seal: they are NOT submitted (the `cons`
+harness skips them). `runEpoch` stops after the `Process` call that emits a sealed frame and returns
+the rest of the epoch's list as `skipped`; `C01_late_events_partial` says this is the plain model run
+`runIds` on the input list from which these events have been removed — i.e. for plain runs the
+hypothesis on the input lists is "the list of an epoch that seals ends with the event whose
+processing seals it". `runEpochs` submits the next epoch's list only after the current one sealed. -/
+section Epochs
+open OrdererEpochs
+
+/-- **C01 for one epoch that may be sealed.** Two instances are in epoch `ep` with the same validators
+    (`initial ep vals`), are given all events of the epoch's valid BFT history `N`, each in its own
+    parents-first order, with applications that seal at the same frames of this epoch with the same
+    validator sets (`hsa`). Both accept every event submitted and emit the same decided frames
+    (epoch, frame, Atropos, sealed flag). Either both seal at the same frame (the last entry of
+    `ds`), skip the rest of their lists, and are both exactly in `initial (ep+1) nv`; or neither seals,
+    nothing is skipped, and they end in the same epoch with the same validators and last decided
+    frame. Remaining hypotheses: as in `C01_order_independent_partial` (`hobs`, `hvals`, `hbound`). -/
+theorem C01_epoch_partial (N : Net) (vals : Vals) (env₁ env₂ : Env) (ep : Nat) (ids₁ ids₂ : List Nat)
+    (hvalid : Valid N.nVals N.h) (hframes : N.FramesAccepted) (hbft : N.BFT)
+    (horder₁ : PFFrom N [] ids₁) (horder₂ : PFFrom N [] ids₂)
+    (hall₁ : ∀ e, e < N.h.length → e ∈ ids₁) (hall₂ : ∀ e, e < N.h.length → e ∈ ids₂)
+    (hobs₁ : ∀ a b, env₁.observe a b = true ↔ N.FC a b) (hobs₂ : ∀ a b, env₂.observe a b = true ↔ N.FC a b)
+    (hvals : ValsOK vals N.nVals N.w) (hbound : FrameBound N)
+    (hsa : ∀ f, env₁.sealAt ep f = env₂.sealAt ep f) :
+    ∃ s₁ s₂ ds sk₁ sk₂, runEpoch N env₁ ids₁ (initial ep vals) [] = some (s₁, ds, sk₁) ∧
+      runEpoch N env₂ ids₂ (initial ep vals) [] = some (s₂, ds, sk₂) ∧
+      ((ds.any (·.sealed) = true ∧ ∃ nv, (∃ F, env₁.sealAt ep F = some nv) ∧
+          s₁ = initial (Gen.Orderer.sealedEpoch ep) nv ∧ s₂ = initial (Gen.Orderer.sealedEpoch ep) nv) ∨
+       (ds.any (·.sealed) = false ∧ sk₁ = [] ∧ sk₂ = [] ∧ s₁.epoch = ep ∧ s₂.epoch = ep ∧
+          s₁.vals = vals ∧ s₂.vals = vals ∧ s₁.ldf = s₂.ldf)) :=
+  epoch_agree (env₁ := env₁) (env₂ := env₂) ⟨hvalid, hframes, hbft, hbound, hvals, hobs₁, fun _ _ => rfl⟩
+    ⟨hvalid, hframes, hbft, hbound, hvals, hobs₂, fun _ _ => rfl⟩ ep hsa ids₁ ids₂ horder₁ horder₂ hall₁ hall₂
+
+/-- the skipped events: `runEpoch` is the plain run `runIds` on the list without them -/
+theorem C01_late_events_partial (N : Net) (env : Env) (ids : List Nat) (s s' : OState) (out out' : List Decided)
+    (skipped : List Nat) (h : runEpoch N env ids s out = some (s', out', skipped)) :
+    ∃ used, ids = used ++ skipped ∧ runIds N env used s out = some (s', out') :=
+  runEpoch_prefix N env ids s out s' out' skipped h
+
+/-- **C01 over several epochs.** `ps`: per epoch the history `N`, the two instances' oracles and
+    parents-first orders. `EpochsOK sealAt ep vals ps` (by recursion over the epochs, starting in
+    epoch `ep` with validators `vals`): in each epoch `N` is valid with accepted, bounded frames and
+    BFT, `vals` is its canonical validator record, both forkless-cause oracles answer `N.FC`
+    (`Ctx N vals (noSeal envᵢ)`), both applications are `sealAt`, both lists are parents-first orders
+    of all events of `N`, and for every validator set `nv` the application may return in this epoch
+    the remaining epochs are OK from `(ep+1, nv)`. Then both instances accept everything they are
+    given, emit the same sequence of decided frames `(epoch, frame, Atropos, sealed)` — hence the
+    same epoch transitions — and end in the same epoch with the same validators and last decided
+    frame. -/
+theorem C01_multi_epoch_partial (sealAt : Nat → Nat → Option Vals) (ps : List EpochPair) (ep : Nat) (vals : Vals)
+    (hok : EpochsOK sealAt ep vals ps) :
+    ∃ s₁ s₂ ds, runEpochs (ps.map EpochPair.in₁) (initial ep vals) [] = some (s₁, ds) ∧
+      runEpochs (ps.map EpochPair.in₂) (initial ep vals) [] = some (s₂, ds) ∧
+      s₁.epoch = s₂.epoch ∧ s₁.vals = s₂.vals ∧ s₁.ldf = s₂.ldf :=
+  epochs_agree sealAt ps ep vals [] hok
+
+/-! non-vacuity: the three-event chain, twice; the application seals epoch 1 at frame 1 -/
+namespace EpochExample
+open ElectionExample
+
+def exSeal : Nat → Nat → Option Vals := fun e f => if e = 1 ∧ f = 1 then some ElectionExample.vals else none
+def exEnv : Env := { observe := ElectionExample.observe, idKey := fun x => x, sealAt := exSeal }
+def exPair : EpochPair := ⟨net, exEnv, exEnv, [0, 1, 2], [0, 1, 2]⟩
+
+theorem ex_all : ∀ e, e < net.h.length → e ∈ [0, 1, 2] := by
+  intro e he
+  have : e < 3 := he
+  have : e = 0 ∨ e = 1 ∨ e = 2 := by omega
+  rcases this with rfl | rfl | rfl <;> simp
+
+theorem ex_ok : EpochsOK exSeal 1 ElectionExample.vals [exPair, exPair] := by
+  refine ⟨Example.ctx, Example.ctx, rfl, rfl, Example.pf, Example.pf, ex_all, ex_all, ?_⟩
+  intro nv hnv
+  obtain ⟨F, hF⟩ := hnv
+  unfold exSeal at hF
+  split at hF
+  · cases hF
+    exact ⟨Example.ctx, Example.ctx, rfl, rfl, Example.pf, Example.pf, ex_all, ex_all, fun _ _ => trivial⟩
+  · cases hF
+
+/-- … and the model indeed seals epoch 1 at its first block and goes on in epoch 2 -/
+example : ∃ s, runEpochs ([exPair, exPair].map EpochPair.in₁) (initial 1 ElectionExample.vals) [] =
+    some (s, [⟨1, 1, 0, true⟩, ⟨2, 1, 0, false⟩]) := ⟨_, rfl⟩
+
+end EpochExample
+end Epochs
 
 end C01
